@@ -103,9 +103,21 @@ def _gen_fun(col, rule="C13.R3"):
     kw = _kw(sx)
     name_p = sx.P(0)
     ex = sx.calls_some(S.fcall("exec", S.V("src"), S.V("gbl"), S.V("lcl")))
-    if len(ex) != 1:
+    ex2 = sx.calls_some(S.fcall("exec", S.V("src"), S.V("gbl")))
+    if len(ex) + len(ex2) != 1:
         raise AnalysisError(f"{q}: expected one exec(source, globals, locals) -- cannot decide")
-    ev, m = ex[0]
+    import ast as _ast
+    if ex2:
+        ev, m = ex2[0]
+        m = dict(m, lcl=m["gbl"])
+        separate = False
+    else:
+        ev, m = ex[0]
+        a = getattr(ev.node, "args", [])
+        separate = not (len(a) == 3 and isinstance(a[1], _ast.Name) and isinstance(a[2], _ast.Name) and a[1].id == a[2].id)
+    col.add(rule, f"{q}#definition-lands-outside-the-container-namespace", separate, sx.loc(ev),
+            "the `def` executes with a locals mapping of its own: executed in the globals alone it rebinds its name there, and a container whose "
+            "label equals the function name is no longer reachable from the body", "exec(source, globals) binds the function in globals" if not separate else "")
     want_src = ("call", ("attr", S.SELF, "mk_fun"), (name_p,), (("**", kw),))
     col.add(rule, f"{q}#source-from-mk_fun", m["src"] == want_src, sx.loc(ev),
             "gen_fun compiles exactly mk_fun(name, **kwargs): the text executed is mk_fun's text, unmodified", S.show(m["src"]))
@@ -131,16 +143,23 @@ def _gen_fun(col, rule="C13.R3"):
 
 
 def check(col: Collector):
-    _mk_fun(col)
+    with col.rule():
+        _mk_fun(col)
     # the schedule is the manager's own (shared obligations)
-    c01._trigger_closure(col, "C13.R2")
-    check_toposort(col, "C13.R2")
-    _gen_fun(col)
+    with col.rule():
+        c01._trigger_closure(col, "C13.R2")
+    with col.rule():
+        check_toposort(col, "C13.R2")
+    with col.rule():
+        _gen_fun(col)
     # printing faithfulness that generated source depends on
     sub = Collector(col.repo, "C13", col.tier)
-    c11._literal_rendering(sub, rule="C13.R4")
-    c11._precedence(sub, rule="C13.R4")
-    c11._resolvable_names(sub, rule="C13.R4")
+    with col.rule():
+        c11._literal_rendering(sub, rule="C13.R4")
+    with col.rule():
+        c11._precedence(sub, rule="C13.R4")
+    with col.rule():
+        c11._resolvable_names(sub, rule="C13.R4")
     for o in sub.obs:
         if o.note:
             continue
@@ -148,9 +167,11 @@ def check(col: Collector):
     # "assigning through the manager" stores and propagates unconditionally -- what the generated setter does by construction
     from .common import shared, construct_tag
     from . import c04
-    shared(col, "C13.R6", [c04._calls, c04._leaves],
-           why="the generated text looks every operand (and the called function) up afresh on each call; the manager's tasks must "
-               "evaluate them afresh too (nothing resolved once and remembered)")
-    shared(col, "C13.R5", [c01._set_value_protocol],
-           select=lambda o: construct_tag(o) in ("write-on-every-path", "propagate-after-write", "trigger-set", "written-value"),
-           why="the generated function writes each argument and runs the tasks unconditionally; set_value must do the same")
+    with col.rule():
+        shared(col, "C13.R6", [c04._calls, c04._leaves],
+               why="the generated text looks every operand (and the called function) up afresh on each call; the manager's tasks must "
+                   "evaluate them afresh too (nothing resolved once and remembered)")
+    with col.rule():
+        shared(col, "C13.R5", [c01._set_value_protocol],
+               select=lambda o: construct_tag(o) in ("write-on-every-path", "propagate-after-write", "trigger-set", "written-value"),
+               why="the generated function writes each argument and runs the tasks unconditionally; set_value must do the same")
